@@ -12,3 +12,4 @@ for _i in range(1, 20):
 
 from . import generic  # noqa: E402,F401  (rules registered for every property)
 from . import packets  # noqa: E402,F401  (packet-frame witnesses shared by several properties)
+from . import driver  # noqa: E402,F401  (driver orchestration witnesses)
